@@ -10,6 +10,7 @@ import NutsModel.C03.Api
 import NutsModel.Facts.C03
 import NutsProofs.Lemmas.C03
 import NutsProofs.Lemmas.C03Api
+import NutsProofs.Lemmas.C03FsList
 import NutsProofs.Props.C03
 
 set_option linter.unusedSimpArgs false
@@ -284,5 +285,34 @@ theorem dpop_jwk_is_signing_key (s : Store) (h0 : Headers) (kids : List String) 
 example : signDPoPSeq (fun _ => true) { refs := [("a", ⟨"n1", "1"⟩), ("b", ⟨"n2", "1"⟩)], backend := [("n1", 1), ("n2", 2)], nextKey := 3 }
     [("jwk", .jwk "*ecdsa.PrivateKey" "ecPriv")] ["a", "b"] =
     [("a", .ok (1, [("jwk", pubJwk 1)])), ("b", .ok (2, [("jwk", pubJwk 2)]))] := by decide
+
+/-! ## fs backend: file names back to key names (`ListPrivateKeys`, the source of the kids `Migrate` creates) -/
+
+/-- the walk callback as the model mirrors it: walk over the key directory, suffix test on the base name, `upper`
+    computed in (signed) int, the guard `upper > 0`, the slice `[:upper]`, version "1" -/
+theorem fact_fs_list_callback :
+    C03.fsListCallback = ["walk:filepath.Walk(fsc.fspath)", "if:err != nil",
+      "if:!info.IsDir() && strings.HasSuffix(info.Name(), string(privateKeyEntry))",
+      "upper:len(info.Name()) - len(privateKeyEntry) - 1", "if:upper > 0", "field:KeyName=info.Name()[:upper]",
+      "field:Version=\"1\"", "if:err != nil"] := by decide
+
+/-- **every stored key is listed under exactly its own name**: for every non-empty key name `n` (in particular every
+    name `validateKID` accepts and every uuid `New` draws) and every entry type, the file the backend created for `n`
+    (`getEntryFileName`) is parsed back to `n` — `Migrate` binds the kid to the name the key is really stored under. -/
+theorem fs_list_roundtrip (n et : Bytes) (hn : n ≠ []) : fsListName (fsEntryFileName n et) et = some n :=
+  fsListName_roundtrip n et hn
+
+/-- **what a listed name can be**: a non-empty proper prefix of a file name of the key directory tree; the file name is
+    that prefix, ONE arbitrary byte, and the entry type. No name is invented, no byte of any file's CONTENT is involved. -/
+theorem fs_listed_name_shape (f et m : Bytes) (h : fsListName f et = some m) : m ≠ [] ∧ ∃ c, f = m ++ c :: et :=
+  fsListName_shape f et m h
+
+/-- limit of the code that exists (mirrored, not repaired — not a key-material path): the byte before the suffix is not
+    compared with `_`: the file `abprivate.pem` is listed as key `a`; `_private.pem` and `private.pem` are skipped. -/
+theorem fs_list_separator_not_checked :
+    ∀ et ∈ C03.fsEntryTypes,
+      fsListName ([97, 98] ++ et) et = some [97] ∧ fsListName (USCORE :: et) et = none ∧ fsListName et et = none := by decide
+
+example : fsListName (fsEntryFileName [107] [112]) [112] = some [107] := by decide
 
 end Nuts.C03.Props
